@@ -77,6 +77,11 @@ func (k Keeper) RouteExactAmountOut(ctx sdk.Context,
 	// swaps on each pool.
 	for i, route := range routes {
 		_tokenOut := tokenOut
+		// intermediate hops pay out to the sender, who funds the next hop; only the last hop pays the recipient
+		actualRecipient := sender
+		if i == len(routes)-1 {
+			actualRecipient = recipient
+		}
 
 		// If there is one pool left in the route, set the expected output of the current swap
 		// to the estimated input of the final pool.
@@ -106,7 +111,7 @@ func (k Keeper) RouteExactAmountOut(ctx sdk.Context,
 		// Calculate the total discounted swap fee
 		totalDiscountedSwapFee = totalDiscountedSwapFee.Add(swapFee)
 
-		_tokenInAmount, swapErr := k.InternalSwapExactAmountOut(ctx, sender, recipient, pool, route.TokenInDenom, insExpected[i], _tokenOut, swapFee)
+		_tokenInAmount, swapErr := k.InternalSwapExactAmountOut(ctx, sender, actualRecipient, pool, route.TokenInDenom, insExpected[i], _tokenOut, swapFee)
 		if swapErr != nil {
 			return math.Int{}, math.LegacyZeroDec(), math.LegacyZeroDec(), swapErr
 		}
